@@ -49,3 +49,28 @@ func (w *World) srcExpr(in ssa.Instruction) string {
 	}
 	return ""
 }
+
+// blankResult: the source assigns result number idx of this call to the blank identifier (`v, _ := f()`).
+func (w *World) blankResult(c *ssa.Call, idx int) bool {
+	if w.assignAt == nil {
+		w.assignAt = map[token.Pos]*ast.AssignStmt{}
+		for _, pkg := range w.Pkgs {
+			for _, f := range pkg.Syntax {
+				ast.Inspect(f, func(n ast.Node) bool {
+					if as, ok := n.(*ast.AssignStmt); ok && len(as.Rhs) == 1 {
+						if ce, ok := ast.Unparen(as.Rhs[0]).(*ast.CallExpr); ok {
+							w.assignAt[ce.Lparen] = as
+						}
+					}
+					return true
+				})
+			}
+		}
+	}
+	as, ok := w.assignAt[c.Pos()]
+	if !ok || idx >= len(as.Lhs) {
+		return false
+	}
+	id, ok := as.Lhs[idx].(*ast.Ident)
+	return ok && id.Name == "_"
+}
